@@ -49,6 +49,9 @@ var c19Paths = []string{
 	// paths of more than 64 and more than 128 bytes (size thresholds of parser-side caches)
 	`$[?(@.a == 1 || @.a == 2 || @.b == 1 || @.b == 2 || @.a.f() == 2 || @.a == 3)].a`,
 	`$[?(@.a == 1 || @.a == 2 || @.b == 1 || @.b == 2 || @.a == 3 || @.a == 4 || @.a == 5 || @.a == 6 || @.a == 7 || @.a == 8 || @.a == 9)]['a','b'].zz()`,
+	// the empty path (the zero value of every "last path" field) and a path longer than 1024 bytes
+	``,
+	`$[?(` + strings.Repeat(`@.a == 1 || `, 90) + `@.a == 2)].a`,
 }
 
 // config kinds: 0 none, 1 {f}, 2 {g}, 3 {f' = same name, other behaviour}, 4 accessor only,
@@ -139,8 +142,8 @@ func c19Core(op int) bool {
 	}
 	pi, ck := op/c19NumCfg, op%c19NumCfg
 	switch pi {
-	case 1, 2, 7, 15, 17, 18, 19:
-		return ck == 0 || ck == 1 || ck == 6
+	case 1, 2, 7, 15, 17, 18, 19, 21, 22:
+		return ck == 0 || ck == 1 || ck == 6 || (pi >= 21 && ck == 4)
 	}
 	return false
 }
@@ -165,7 +168,11 @@ func c19NumOps() int   { return c19NumParse() + 1 + 2 }
 
 func c19OpString(op int) string {
 	if op < c19NumParse() {
-		return fmt.Sprintf("Parse(%q, cfg%d)", c19Paths[op/c19NumCfg], op%c19NumCfg)
+		pt := c19Paths[op/c19NumCfg]
+		if len(pt) > 100 {
+			pt = fmt.Sprintf("%s...(%d bytes)", pt[:60], len(pt))
+		}
+		return fmt.Sprintf("Parse(%q, cfg%d)", pt, op%c19NumCfg)
 	}
 	if op == c19NumParse() {
 		return "rebind f in the shared Config"
@@ -682,7 +689,7 @@ func init() {
 			"the state hash covers every package-level variable (reflectively, unexported fields included; function values as nil/non-nil) and the pool contents; state hidden in closures of the generated matcher is outside the hash - part (i) does not depend on the hash",
 		},
 		Bounds: map[string]string{
-			"quick":    "operations: Parse of 21 paths (two of them longer than 64 / 128 bytes; plain, filter function, aggregate, functions inside filters, nested parameters, and one failing at each action: bad integer, bad float, bad regex, bad string, unknown function after a known one, script, value-group comparison, two @ operands, trailing garbage) x 7 configs (none, {f}, {g}, {f'}, accessor, all, shared object) plus, for the plain / f / g paths, two Config arguments (shared object, fresh {f', h, g}) and a by-value copy of the shared object with accessor mode set on the copy, 'rebind f in the shared Config', 're-call an earlier function'; all histories of length <=2 and length 3 with a reduced third alphabet; BFS to fixpoint",
+			"quick":    "operations: Parse of 23 paths (three of them longer than 64 / 128 / 1024 bytes, and the empty path; plain, filter function, aggregate, functions inside filters, nested parameters, and one failing at each action: bad integer, bad float, bad regex, bad string, unknown function after a known one, script, value-group comparison, two @ operands, trailing garbage) x 7 configs (none, {f}, {g}, {f'}, accessor, all, shared object) plus, for the plain / f / g paths, two Config arguments (shared object, fresh {f', h, g}) and a by-value copy of the shared object with accessor mode set on the copy, 'rebind f in the shared Config', 're-call an earlier function'; all histories of length <=2 and length 3 with a reduced third alphabet; BFS to fixpoint",
 			"thorough": "as quick, plus: third operation also over the core alphabet of 20 (the function, bad-regex, '$'-less and failing-parameter paths with no config / {f} / the shared object, rebind, re-call), and all histories of length 4 whose first two operations range over the full alphabet and whose last two over the core alphabet; BFS to fixpoint",
 		},
 		New: newC19,
